@@ -5,6 +5,10 @@ package crypto
 // Contracts for govc (contract-based deductive verification; see /verif/DESIGN.md).
 // This file holds only comments and is compiled only with -tags verif.
 
+// C17's quantifier is "every exported function of this package taking []byte": the check fails for one without a
+// contract tagged C17 that has a modifies clause.
+//@ coverage exported-bytes C17
+
 // ---- spec functions: the algorithm families of SupportedSymmetricAlgorithms() and the AES key size in the name ----
 
 //@ pure func kcCBCPad(a string) bool = a == "A128CBC" || a == "A192CBC" || a == "A256CBC"
@@ -64,9 +68,16 @@ package crypto
 //@   tags C03 C07 C17
 //@   ghost sealed slice
 //@   requires aead != nil
+// the value is a well-formed AEAD (the precondition of the cipher.AEAD methods, libspec crypto.spec: a value of the
+// repository's own *aesCBCAEAD type satisfies that type's invariant and carries its interface ghosts) with a known length law
+//@   requires typeis(aead, "*github.com/dapr/kit/crypto/aescbcaead.aesCBCAEAD") ==> (unbox(aead, "*github.com/dapr/kit/crypto/aescbcaead.aesCBCAEAD") != nil && inv(deref(aead, "github.com/dapr/kit/crypto/aescbcaead.aesCBCAEAD")) && aead.overhead == deref(aead, "github.com/dapr/kit/crypto/aescbcaead.aesCBCAEAD").tagSize && aead.noncesize == 16 && !aead.exactoverhead && aead.cbcpadded)
+//@   requires (aead.exactoverhead || aead.cbcpadded) && !(aead.exactoverhead && aead.cbcpadded)   // exactly one length law
 //@   modifies nothing
 //@   ensures [C03.aead.nonce] len(nonce) != aead.noncesize ==> (err == ErrInvalidNonce && ciphertext == nil && tag == nil)
-//@   ensures [C03.aead.split] len(nonce) == aead.noncesize ==> (err == nil && len(ciphertext) == len(plaintext) && len(tag) == aead.overhead)
+//@   ensures [C03.aead.split] len(nonce) == aead.noncesize ==> (err == nil && len(tag) == aead.overhead)
+// the ciphertext is as long as the plaintext for the stream modes (GCM), and the PKCS#7-padded length (RFC 7518 5.2.2.1
+// step 3: 1..16 bytes are always added) for AES-CBC-HMAC-SHA2
+//@   ensures [C03.aead.split.len] err == nil ==> ((aead.exactoverhead ==> len(ciphertext) == len(plaintext)) && (aead.cbcpadded ==> len(ciphertext) == len(plaintext) + 16 - len(plaintext) % 16))
 //@   ensures [C03.aead.split.ct] err == nil ==> (ciphertext.base == sealed.base && ciphertext.off == sealed.off && len(ciphertext) == len(sealed) - aead.overhead)
 //@   ensures [C03.aead.split.tag] err == nil ==> (tag.base == sealed.base && tag.off == sealed.off + len(sealed) - aead.overhead && len(tag) == aead.overhead)
 //@   ensures [C03.aead.fresh] err == nil ==> (fresh(ciphertext) && fresh(tag))
@@ -77,13 +88,24 @@ package crypto
 //@ func decryptSymmetricAEAD
 //@   tags C03 C07 C17
 //@   requires aead != nil
+// the value is a well-formed AEAD (the precondition of the cipher.AEAD methods, libspec crypto.spec: a value of the
+// repository's own *aesCBCAEAD type satisfies that type's invariant and carries its interface ghosts) with a known length law
+//@   requires typeis(aead, "*github.com/dapr/kit/crypto/aescbcaead.aesCBCAEAD") ==> (unbox(aead, "*github.com/dapr/kit/crypto/aescbcaead.aesCBCAEAD") != nil && inv(deref(aead, "github.com/dapr/kit/crypto/aescbcaead.aesCBCAEAD")) && aead.overhead == deref(aead, "github.com/dapr/kit/crypto/aescbcaead.aesCBCAEAD").tagSize && aead.noncesize == 16 && !aead.exactoverhead && aead.cbcpadded)
+//@   requires (aead.exactoverhead || aead.cbcpadded) && !(aead.exactoverhead && aead.cbcpadded)   // exactly one length law
 //@   modifies nothing
 //@   ensures [C03.aead.dnonce] len(nonce) != aead.noncesize ==> (err == ErrInvalidNonce && plaintext == nil)
 //@   ensures [C03.aead.dtag] (len(nonce) == aead.noncesize && len(tag) != aead.overhead) ==> (err == ErrInvalidTag && plaintext == nil)
 //@   ensures [C03.aead.dnoout] err != nil ==> plaintext == nil
-//@   ensures [C03.aead.dlen] err == nil ==> len(plaintext) == len(ciphertext)
+//@   ensures [C03.aead.dlen] err == nil ==> ((aead.exactoverhead ==> len(plaintext) == len(ciphertext))
+//@        && (aead.cbcpadded ==> (len(ciphertext) >= 16 && len(ciphertext) % 16 == 0 && len(ciphertext) - 16 <= len(plaintext) && len(plaintext) < len(ciphertext))))
 //@   ensures [C03.aead.dfresh] plaintext == nil || fresh(plaintext)
 //@   at before call Open#0 assert [C03.aead.openargs] arg0 == aead && arg1 == nil && arg2 == nonce && arg4 == associatedData
+// the plaintext handed back is what Open produced (and its verdict is the verdict), not some other buffer of the same length
+//@   ghost opened slice
+//@   ghost operr error
+//@   at call Open#0 ghost opened = res0
+//@   at call Open#0 ghost operr = res1
+//@   ensures [C03.aead.dresult] (len(nonce) == aead.noncesize && len(tag) == aead.overhead) ==> (plaintext == opened && err == operr)
 //@   at before call Open#0 assert [C03.aead.openbuf.len] len(arg3) == len(ciphertext) + len(tag)
 //@   at before call Open#0 assert [C03.aead.openbuf.ct] forall i :: 0 <= i && i < len(ciphertext) ==> arg3[i] == ciphertext[i]
 //@   at before call Open#0 assert [C03.aead.openbuf.tag] forall i :: 0 <= i && i < len(tag) ==> arg3[len(ciphertext) + i] == tag[i]
@@ -104,6 +126,12 @@ package crypto
 //@   ensures [C03.chacha.dlen] err == nil ==> len(plaintext) == len(ciphertext)
 //@   ensures [C03.chacha.dfresh] plaintext == nil || fresh(plaintext)
 //@   at before call Open#0 assert [C03.chacha.openargs] arg1 == nil && arg2 == nonce && arg4 == associatedData
+//@   at before call Open#0 assert [C03.chacha.openkey] arg0.akey == key && arg0.aeadalg == ((algorithm == "C20P" || algorithm == "C20PKW") ? 2 : 3)
+//@   ghost opened slice
+//@   ghost operr error
+//@   at call Open#0 ghost opened = res0
+//@   at call Open#0 ghost operr = res1
+//@   ensures [C03.chacha.dresult] (len(key) == 32 && len(nonce) == ((algorithm == "C20P" || algorithm == "C20PKW") ? 12 : 24) && len(tag) == 16) ==> (plaintext == opened && err == operr)
 //@   at before call Open#0 assert [C03.chacha.openbuf.len] len(arg3) == len(ciphertext) + len(tag)
 //@   at before call Open#0 assert [C03.chacha.openbuf.ct] forall i :: 0 <= i && i < len(ciphertext) ==> arg3[i] == ciphertext[i]
 //@   at before call Open#0 assert [C03.chacha.openbuf.tag] forall i :: 0 <= i && i < len(tag) ==> arg3[len(ciphertext) + i] == tag[i]
@@ -117,6 +145,8 @@ package crypto
 //@   tags C03 C07 C17
 //@   modifies nothing
 //@   ensures err == nil ==> (aead != nil && aead.overhead == 16 && len(nonce) == aead.noncesize && len(key) == 32)
+// which construction, with which key: C20P / C20PKW = ChaCha20-Poly1305 (aeadalg 2), XC20P / XC20PKW = XChaCha20-Poly1305 (3)
+//@   ensures [C03.chacha.cipher] err == nil ==> (aead.akey == key && aead.aeadalg == ((algorithm == "C20P" || algorithm == "C20PKW") ? 2 : 3) && aead.exactoverhead && !aead.cbcpadded && !typeis(aead, "*github.com/dapr/kit/crypto/aescbcaead.aesCBCAEAD"))
 //@   ensures [C03.chacha.nonce] (len(key) == 32 && (algorithm == "C20P" || algorithm == "C20PKW") && len(nonce) != 12) ==> err == ErrInvalidNonce
 //@   ensures [C03.chacha.noncex] (len(key) == 32 && (algorithm == "XC20P" || algorithm == "XC20PKW") && len(nonce) != 24) ==> err == ErrInvalidNonce
 //@   ensures [C03.chacha.ok] (len(key) == 32 && (((algorithm == "C20P" || algorithm == "C20PKW") && len(nonce) == 12) || ((algorithm == "XC20P" || algorithm == "XC20PKW") && len(nonce) == 24))) ==> err == nil
@@ -133,6 +163,18 @@ package crypto
 //@   ensures [C03.cbc.ok.nopad] (len(key) == kcAESKeySize(algorithm) && len(iv) == 16 && kcCBCNoPad(algorithm) && len(plaintext) % 16 == 0) ==> (err == nil && fresh(ciphertext) && len(ciphertext) == len(plaintext))
 //@   ensures [C03.cbc.ok.pad] (len(key) == kcAESKeySize(algorithm) && len(iv) == 16 && kcCBCPad(algorithm)) ==> (err == nil && fresh(ciphertext) && len(ciphertext) == len(plaintext) + 16 - len(plaintext) % 16)
 //@   ensures [C03.cbc.noout] err != nil ==> ciphertext == nil
+// "encrypts the given plaintext with the given key and IV": the block cipher is built from key, the CBC encrypter from that
+// block and iv, its input is the plaintext (PKCS#7-padded to 16 for the padded names), its output is what is returned
+//@   ghost padded slice
+//@   ghost cbcdst slice
+//@   at before call NewCipher#0 assert [C03.cbc.enc.key] arg0 == key
+//@   at before call PadPKCS7#0 assert [C03.cbc.enc.padargs] arg0 == old(plaintext) && arg1 == 16
+//@   at call PadPKCS7#0 ghost padded = res0
+//@   at before call NewCBCEncrypter#0 assert [C03.cbc.enc.iv] arg0.bkey == key && arg1 == iv
+//@   at before call CryptBlocks#0 assert [C03.cbc.enc.mode] arg0.modeblock.bkey == key && arg0.modeiv == iv && !arg0.modedec
+//@   at before call CryptBlocks#0 assert [C03.cbc.enc.src] arg2 == (kcCBCNoPad(algorithm) ? old(plaintext) : padded) && len(arg1) == len(arg2)
+//@   at before call CryptBlocks#0 ghost cbcdst = arg1
+//@   ensures [C03.cbc.enc.result] err == nil ==> ciphertext == cbcdst
 
 //@ func decryptSymmetricAESCBC
 //@   tags C03 C07 C17
@@ -144,9 +186,27 @@ package crypto
 //@   ensures [C03.cbc.dok.nopad] (len(key) == kcAESKeySize(algorithm) && len(iv) == 16 && len(ciphertext) % 16 == 0 && kcCBCNoPad(algorithm)) ==> (err == nil && fresh(plaintext) && len(plaintext) == len(ciphertext))
 // no PKCS#7-padded encryption is empty (padding always adds 1..16 bytes): the empty ciphertext has the wrong size
 //@   ensures [C03.cbc.dctlen.empty] (len(key) == kcAESKeySize(algorithm) && len(iv) == 16 && kcCBCPad(algorithm) && len(ciphertext) == 0) ==> (err == ErrInvalidCiphertextLength && plaintext == nil)
-//@   ensures [C03.cbc.dok.pad] (len(key) == kcAESKeySize(algorithm) && len(iv) == 16 && len(ciphertext) % 16 == 0 && len(ciphertext) > 0 && kcCBCPad(algorithm)) ==> (err == nil || err == padding.ErrInvalidPKCS7Padding)
-//@   ensures [C03.cbc.dok.padlen] (err == nil && kcCBCPad(algorithm)) ==> (len(ciphertext) >= 16 && len(plaintext) < len(ciphertext))
+// for a well-sized padded ciphertext the verdict and the plaintext are exactly those of the PKCS#7 unpadder on the decrypted
+// blocks (UnpadPKCS7's contract says when it accepts: [C03.unpad.accept] / [C03.unpad.reject])
+//@   ensures [C03.cbc.dok.pad] (len(key) == kcAESKeySize(algorithm) && len(iv) == 16 && len(ciphertext) % 16 == 0 && len(ciphertext) > 0 && kcCBCPad(algorithm)) ==> ((err == nil || err == padding.ErrInvalidPKCS7Padding) && err == unperr && (err == nil ==> plaintext == unp))
+// PKCS#7 removes 1..16 bytes from a non-empty whole number of blocks
+//@   ensures [C03.cbc.dok.padlen] (err == nil && kcCBCPad(algorithm)) ==> (len(ciphertext) >= 16 && len(ciphertext) % 16 == 0 && len(ciphertext) - 16 <= len(plaintext) && len(plaintext) < len(ciphertext))
+//@   ensures [C03.cbc.dok.nopadlen] (err == nil && kcCBCNoPad(algorithm)) ==> len(plaintext) == len(ciphertext)
 //@   ensures [C03.cbc.dnoout] err != nil ==> plaintext == nil
+//@   ghost cbcdst slice
+//@   ghost unp slice
+//@   ghost unperr error
+//@   at before call NewCipher#0 assert [C03.cbc.dec.key] arg0 == key
+//@   at before call NewCBCDecrypter#0 assert [C03.cbc.dec.iv] arg0.bkey == key && arg1 == iv
+//@   at before call CryptBlocks#0 assert [C03.cbc.dec.mode] arg0.modeblock.bkey == key && arg0.modeiv == iv && arg0.modedec
+//@   at before call CryptBlocks#0 assert [C03.cbc.dec.src] arg2 == ciphertext && len(arg1) == len(ciphertext)
+//@   at before call CryptBlocks#0 ghost cbcdst = arg1
+//@   at before call UnpadPKCS7#0 assert [C03.cbc.dec.unpad] arg0 == cbcdst && arg1 == 16
+//@   at call UnpadPKCS7#0 ghost unp = res0
+//@   at call UnpadPKCS7#0 ghost unperr = res1
+//@   ensures [C03.cbc.dec.result.nopad] (err == nil && kcCBCNoPad(algorithm)) ==> plaintext == cbcdst
+// C17: the plaintext never shares memory with an argument (the unpadded view lies in the buffer allocated here)
+//@   ensures [C17.cbc.dfresh] plaintext == nil || fresh(plaintext)
 
 // ---- ChaCha20-Poly1305 (encrypt) ----
 
@@ -165,6 +225,7 @@ package crypto
 //@   ensures [C03.chacha.errs] err == nil || err == ErrKeyTypeMismatch || err == ErrInvalidNonce
 //@   at call Seal#0 ghost sealed = res0
 //@   at call Seal#0 assert [C03.chacha.sealargs] arg1 == nil && arg2 == nonce && arg3 == plaintext && arg4 == associatedData
+//@   at before call Seal#0 assert [C03.chacha.sealkey] arg0.akey == key && arg0.aeadalg == ((algorithm == "C20P" || algorithm == "C20PKW") ? 2 : 3)
 
 // ---- AES-GCM ----
 
@@ -177,6 +238,16 @@ package crypto
 //@   ensures [C03.gcm.ok] (len(key) == kcAESKeySize(algorithm) && len(nonce) == 12) ==> (err == nil && fresh(ciphertext) && fresh(tag) && len(ciphertext) == len(plaintext) && len(tag) == 16)
 //@   ensures [C03.gcm.noout] err != nil ==> (ciphertext == nil && tag == nil)
 //@   at call encryptSymmetricAEAD#0 assert [C03.gcm.args] arg1 == plaintext && arg2 == nonce && arg3 == associatedData
+// AES-GCM keyed with the given key; what the AEAD helper returns is what is returned
+//@   ghost rct slice
+//@   ghost rtag slice
+//@   ghost rerr error
+//@   at before call NewCipher#0 assert [C03.gcm.key.bind] arg0 == key
+//@   at before call encryptSymmetricAEAD#0 assert [C03.gcm.aead] arg0.akey == key && arg0.aeadalg == 1
+//@   at call encryptSymmetricAEAD#0 ghost rct = res0
+//@   at call encryptSymmetricAEAD#0 ghost rtag = res1
+//@   at call encryptSymmetricAEAD#0 ghost rerr = res2
+//@   ensures [C03.gcm.result] len(key) == kcAESKeySize(algorithm) ==> (ciphertext == rct && tag == rtag && err == rerr)
 
 //@ func decryptSymmetricAESGCM
 //@   tags C03 C07 C17
@@ -189,6 +260,13 @@ package crypto
 //@   ensures [C03.gcm.dlen] err == nil ==> len(plaintext) == len(ciphertext)
 //@   ensures [C03.gcm.dfresh] plaintext == nil || fresh(plaintext)
 //@   at call decryptSymmetricAEAD#0 assert [C03.gcm.dargs] arg1 == ciphertext && arg2 == nonce && arg3 == tag && arg4 == associatedData
+//@   ghost rpt slice
+//@   ghost rerr error
+//@   at before call NewCipher#0 assert [C03.gcm.dkey.bind] arg0 == key
+//@   at before call decryptSymmetricAEAD#0 assert [C03.gcm.daead] arg0.akey == key && arg0.aeadalg == 1
+//@   at call decryptSymmetricAEAD#0 ghost rpt = res0
+//@   at call decryptSymmetricAEAD#0 ghost rerr = res1
+//@   ensures [C03.gcm.dresult] len(key) == kcAESKeySize(algorithm) ==> (plaintext == rpt && err == rerr)
 
 // ---- AES-CBC-HMAC-SHA2 ----
 
@@ -196,7 +274,12 @@ package crypto
 //@   tags C03 C07 C17
 //@   modifies nothing
 //@   ensures [C03.cbchmac.keylen] (kcCBCHMAC(algorithm) && len(key) != ((algorithm == "A128CBC-HS256") ? 32 : ((algorithm == "A192CBC-HS384") ? 48 : 64))) ==> (err == ErrKeyTypeMismatch && aead == nil)
-//@   ensures [C03.cbchmac.ok] (kcCBCHMAC(algorithm) && len(key) == ((algorithm == "A128CBC-HS256") ? 32 : ((algorithm == "A192CBC-HS384") ? 48 : 64))) ==> (err == nil && aead != nil && aead.noncesize == 16 && aead.overhead == len(key) / 2)
+//@   ensures [C03.cbchmac.ok] (kcCBCHMAC(algorithm) && len(key) == ((algorithm == "A128CBC-HS256") ? 32 : ((algorithm == "A192CBC-HS384") ? 48 : 64))) ==> (err == nil && aead != nil && aead.noncesize == 16 && aead.overhead == len(key) / 2 && aead.cbcpadded && !aead.exactoverhead)
+//@   ensures [C03.cbchmac.wf] err == nil ==> (typeis(aead, "*github.com/dapr/kit/crypto/aescbcaead.aesCBCAEAD") && unbox(aead, "*github.com/dapr/kit/crypto/aescbcaead.aesCBCAEAD") != nil && inv(deref(aead, "github.com/dapr/kit/crypto/aescbcaead.aesCBCAEAD")) && deref(aead, "github.com/dapr/kit/crypto/aescbcaead.aesCBCAEAD").tagSize == aead.overhead)
+// RFC 7518 5.2.2.1: MAC_KEY = the initial half of K, ENC_KEY = the final half; 5.2.3-5.2.5: HMAC SHA-256 / SHA-384 / SHA-512
+// (crypto.Hash values 5 / 6 / 7) truncated to half the digest
+//@   ensures [C03.cbchmac.keys] err == nil ==> (deref(aead, "github.com/dapr/kit/crypto/aescbcaead.aesCBCAEAD").macKey == key[0:len(key) / 2] && deref(aead, "github.com/dapr/kit/crypto/aescbcaead.aesCBCAEAD").encKey == key[len(key) / 2:len(key)])
+//@   ensures [C03.cbchmac.hash] err == nil ==> (isfunc(deref(aead, "github.com/dapr/kit/crypto/aescbcaead.aesCBCAEAD").macAlg, "(crypto.Hash).New$bound") && bound(deref(aead, "github.com/dapr/kit/crypto/aescbcaead.aesCBCAEAD").macAlg, 0, "crypto.Hash") == ((algorithm == "A128CBC-HS256") ? 5 : ((algorithm == "A192CBC-HS384") ? 6 : 7)))
 //@   ensures [C03.cbchmac.noout] err != nil ==> aead == nil
 //@   ensures [C03.cbchmac.errs] kcCBCHMAC(algorithm) ==> (err == nil || err == ErrKeyTypeMismatch)
 
@@ -206,9 +289,20 @@ package crypto
 //@   modifies nothing
 //@   ensures [C03.cbchmac.key] len(key) != ((algorithm == "A128CBC-HS256") ? 32 : ((algorithm == "A192CBC-HS384") ? 48 : 64)) ==> (err == ErrKeyTypeMismatch && ciphertext == nil && tag == nil)
 //@   ensures [C03.cbchmac.nonce] (len(key) == ((algorithm == "A128CBC-HS256") ? 32 : ((algorithm == "A192CBC-HS384") ? 48 : 64)) && len(nonce) != 16) ==> (err == ErrInvalidNonce && ciphertext == nil && tag == nil)
-//@   ensures [C03.cbchmac.eok] (len(key) == ((algorithm == "A128CBC-HS256") ? 32 : ((algorithm == "A192CBC-HS384") ? 48 : 64)) && len(nonce) == 16) ==> (err == nil && fresh(ciphertext) && fresh(tag) && len(ciphertext) == len(plaintext) && len(tag) == len(key) / 2)
+//@   ensures [C03.cbchmac.eok] (len(key) == ((algorithm == "A128CBC-HS256") ? 32 : ((algorithm == "A192CBC-HS384") ? 48 : 64)) && len(nonce) == 16) ==> (err == nil && fresh(ciphertext) && fresh(tag) && len(ciphertext) == len(plaintext) + 16 - len(plaintext) % 16 && len(tag) == len(key) / 2)
 //@   ensures [C03.cbchmac.enoout] err != nil ==> (ciphertext == nil && tag == nil)
 //@   at call encryptSymmetricAEAD#0 assert [C03.cbchmac.args] arg1 == plaintext && arg2 == nonce && arg3 == associatedData
+//@   ghost ci iface
+//@   ghost rct slice
+//@   ghost rtag slice
+//@   ghost rerr error
+//@   at call getAESCBCHMACCipher#0 ghost ci = res0
+//@   at before call getAESCBCHMACCipher#0 assert [C03.cbchmac.cipherargs] arg0 == algorithm && arg1 == key
+//@   at before call encryptSymmetricAEAD#0 assert [C03.cbchmac.cipher] arg0 == ci
+//@   at call encryptSymmetricAEAD#0 ghost rct = res0
+//@   at call encryptSymmetricAEAD#0 ghost rtag = res1
+//@   at call encryptSymmetricAEAD#0 ghost rerr = res2
+//@   ensures [C03.cbchmac.result] len(key) == ((algorithm == "A128CBC-HS256") ? 32 : ((algorithm == "A192CBC-HS384") ? 48 : 64)) ==> (ciphertext == rct && tag == rtag && err == rerr)
 
 //@ func decryptSymmetricAESCBCHMAC
 //@   tags C03 C07 C17
@@ -219,7 +313,17 @@ package crypto
 //@   ensures [C03.cbchmac.dtag] (len(key) == ((algorithm == "A128CBC-HS256") ? 32 : ((algorithm == "A192CBC-HS384") ? 48 : 64)) && len(nonce) == 16 && len(tag) != len(key) / 2) ==> (err == ErrInvalidTag && plaintext == nil)
 //@   ensures [C03.cbchmac.dnoout] err != nil ==> plaintext == nil
 //@   ensures [C03.cbchmac.dfresh] plaintext == nil || fresh(plaintext)
+//@   ensures [C03.cbchmac.dlen] err == nil ==> (len(ciphertext) >= 16 && len(ciphertext) % 16 == 0 && len(ciphertext) - 16 <= len(plaintext) && len(plaintext) < len(ciphertext))
 //@   at call decryptSymmetricAEAD#0 assert [C03.cbchmac.dargs] arg1 == ciphertext && arg2 == nonce && arg3 == tag && arg4 == associatedData
+//@   ghost ci iface
+//@   ghost rpt slice
+//@   ghost rerr error
+//@   at call getAESCBCHMACCipher#0 ghost ci = res0
+//@   at before call getAESCBCHMACCipher#0 assert [C03.cbchmac.dcipherargs] arg0 == algorithm && arg1 == key
+//@   at before call decryptSymmetricAEAD#0 assert [C03.cbchmac.dcipher] arg0 == ci
+//@   at call decryptSymmetricAEAD#0 ghost rpt = res0
+//@   at call decryptSymmetricAEAD#0 ghost rerr = res1
+//@   ensures [C03.cbchmac.dresult] len(key) == ((algorithm == "A128CBC-HS256") ? 32 : ((algorithm == "A192CBC-HS384") ? 48 : 64)) ==> (plaintext == rpt && err == rerr)
 
 // ---- AES-KW ----
 
@@ -233,6 +337,15 @@ package crypto
 //@   ensures [C03.kw.len] (len(key) == kcAESKeySize(algorithm) && (len(plaintext) % 8 != 0 || len(plaintext) < 16)) ==> err == ErrInvalidPlaintextLength
 //@   ensures [C03.kw.noout] err != nil ==> ciphertext == nil
 //@   at call Wrap#0 assert [C03.kw.args] arg1 == plaintext
+//@   ensures [C03.kw.eok] (len(key) == kcAESKeySize(algorithm) && len(plaintext) >= 16 && len(plaintext) % 8 == 0) ==> err == nil
+// wrapped under the given key; Wrap's result is the result
+//@   ghost wres slice
+//@   ghost werr error
+//@   at before call NewCipher#0 assert [C03.kw.key.bind] arg0 == key
+//@   at before call Wrap#0 assert [C03.kw.kek] arg0.bkey == key
+//@   at call Wrap#0 ghost wres = res0
+//@   at call Wrap#0 ghost werr = res1
+//@   ensures [C03.kw.result] (len(key) == kcAESKeySize(algorithm) && len(plaintext) >= 16 && len(plaintext) % 8 == 0) ==> (ciphertext == wres && err == werr)
 
 //@ func decryptSymmetricAESKW
 //@   tags C03 C07 C17
@@ -243,6 +356,13 @@ package crypto
 //@   ensures [C03.kw.dnoout] err != nil ==> plaintext == nil
 //@   ensures [C03.kw.dlen] (len(key) == kcAESKeySize(algorithm) && (len(ciphertext) % 8 != 0 || len(ciphertext) < 24)) ==> err == ErrInvalidCiphertextLength
 //@   at call Unwrap#0 assert [C03.kw.dargs] arg1 == ciphertext
+//@   ghost wres slice
+//@   ghost werr error
+//@   at before call NewCipher#0 assert [C03.kw.dkey.bind] arg0 == key
+//@   at before call Unwrap#0 assert [C03.kw.dkek] arg0.bkey == key
+//@   at call Unwrap#0 ghost wres = res0
+//@   at call Unwrap#0 ghost werr = res1
+//@   ensures [C03.kw.dresult] (len(key) == kcAESKeySize(algorithm) && len(ciphertext) >= 24 && len(ciphertext) % 8 == 0) ==> (plaintext == wres && err == werr)
 
 // ---- crypto.go: hash selection ----
 // crypto.Hash values: SHA1 = 3, SHA256 = 5, SHA384 = 6, SHA512 = 7.
@@ -274,6 +394,11 @@ package crypto
 //@   ensures [C03.rsa.enc15.noout] result1 != nil ==> result == nil
 //@   ensures [C03.rsa.enc15.fresh] result == nil || fresh(result)
 //@   at call EncryptPKCS1v15#0 assert [C03.rsa.enc15.args] arg2 == plaintext
+// the primitive works with the key material extracted from the given jwk.Key (and from nothing else)
+//@   ghost rawdst iface
+//@   at before call Raw#0 assert [C03.rsa.enc15.keysrc] arg0 == key
+//@   at before call Raw#0 ghost rawdst = arg1
+//@   at before call EncryptPKCS1v15#0 assert [C03.rsa.enc15.keyarg] box(arg1, "*crypto/rsa.PublicKey") == rawdst
 // "a plaintext of the wrong size yields the package's sentinel where one is defined": too long for the key
 //@   ghost encalled int
 //@   ghost encerr error
@@ -292,6 +417,11 @@ package crypto
 //@   ensures [C03.rsa.encoaep.fresh] result == nil || fresh(result)
 //@   at before call New#0 assert [C03.rsa.encoaep.hash] arg0 == hash
 //@   at call EncryptOAEP#0 assert [C03.rsa.encoaep.args] arg3 == plaintext && arg4 == label
+// the primitive works with the key material extracted from the given jwk.Key (and from nothing else)
+//@   ghost rawdst iface
+//@   at before call Raw#0 assert [C03.rsa.encoaep.keysrc] arg0 == key
+//@   at before call Raw#0 ghost rawdst = arg1
+//@   at before call EncryptOAEP#0 assert [C03.rsa.encoaep.keyarg] box(arg2, "*crypto/rsa.PublicKey") == rawdst
 //@   ghost encalled int
 //@   ghost encerr error
 //@   at before call Raw#0 ghost encalled = 0
@@ -307,6 +437,11 @@ package crypto
 //@   ensures [C03.rsa.dec15.noout] result1 != nil ==> result == nil
 //@   ensures [C03.rsa.dec15.fresh] result == nil || fresh(result)
 //@   at call DecryptPKCS1v15#0 assert [C03.rsa.dec15.args] arg2 == ciphertext
+// the primitive works with the key material extracted from the given jwk.Key (and from nothing else)
+//@   ghost rawdst iface
+//@   at before call Raw#0 assert [C03.rsa.dec15.keysrc] arg0 == key
+//@   at before call Raw#0 ghost rawdst = arg1
+//@   at before call DecryptPKCS1v15#0 assert [C03.rsa.dec15.keyarg] box(arg1, "*crypto/rsa.PrivateKey") == rawdst
 
 //@ func decryptPrivateKeyRSAOAEP
 //@   tags C03 C07 C17
@@ -318,6 +453,11 @@ package crypto
 //@   ensures [C03.rsa.decoaep.fresh] result == nil || fresh(result)
 //@   at before call New#0 assert [C03.rsa.decoaep.hash] arg0 == hash
 //@   at call DecryptOAEP#0 assert [C03.rsa.decoaep.args] arg3 == ciphertext && arg4 == label
+// the primitive works with the key material extracted from the given jwk.Key (and from nothing else)
+//@   ghost rawdst iface
+//@   at before call Raw#0 assert [C03.rsa.decoaep.keysrc] arg0 == key
+//@   at before call Raw#0 ghost rawdst = arg1
+//@   at before call DecryptOAEP#0 assert [C03.rsa.decoaep.keyarg] box(arg2, "*crypto/rsa.PrivateKey") == rawdst
 
 //@ func EncryptPublicKey
 //@   tags C03 C07 C17
@@ -377,6 +517,11 @@ package crypto
 //@   ensures [C03.sig.rs.noout] result1 != nil ==> result == nil
 //@   ensures [C03.sig.rs.fresh] result == nil || fresh(result)
 //@   at call SignPKCS1v15#0 assert [C03.sig.rs.args] arg2 == hash && arg3 == digest
+// the primitive works with the key material extracted from the given jwk.Key (and from nothing else)
+//@   ghost rawdst iface
+//@   at before call Raw#0 assert [C03.sig.rs.keysrc] arg0 == key
+//@   at before call Raw#0 ghost rawdst = arg1
+//@   at before call SignPKCS1v15#0 assert [C03.sig.rs.keyarg] box(arg1, "*crypto/rsa.PrivateKey") == rawdst
 
 //@ func signPrivateKeyRSAPSS
 //@   tags C03 C07 C17
@@ -387,6 +532,11 @@ package crypto
 //@   ensures [C03.sig.ps.noout] result1 != nil ==> result == nil
 //@   ensures [C03.sig.ps.fresh] result == nil || fresh(result)
 //@   at call SignPSS#0 assert [C03.sig.ps.args] arg2 == hash && arg3 == digest
+// the primitive works with the key material extracted from the given jwk.Key (and from nothing else)
+//@   ghost rawdst iface
+//@   at before call Raw#0 assert [C03.sig.ps.keysrc] arg0 == key
+//@   at before call Raw#0 ghost rawdst = arg1
+//@   at before call SignPSS#0 assert [C03.sig.ps.keyarg] box(arg1, "*crypto/rsa.PrivateKey") == rawdst
 // RFC 7518 section 3.5: "The size of the salt value is the same size as the hash function output" -- with nil options
 // crypto/rsa signs with the largest salt that fits, which verifiers following the RFC strictly reject
 // (rsa.PSSSaltLengthEqualsHash == -1)
@@ -400,6 +550,11 @@ package crypto
 //@   ensures [C03.sig.es.noout] result1 != nil ==> result == nil
 //@   ensures [C03.sig.es.fresh] result == nil || fresh(result)
 //@   at call SignASN1#0 assert [C03.sig.es.args] arg2 == digest
+// the primitive works with the key material extracted from the given jwk.Key (and from nothing else)
+//@   ghost rawdst iface
+//@   at before call Raw#0 assert [C03.sig.es.keysrc] arg0 == key
+//@   at before call Raw#0 ghost rawdst = arg1
+//@   at before call SignASN1#0 assert [C03.sig.es.keyarg] box(arg1, "*crypto/ecdsa.PrivateKey") == rawdst
 // "a key of the wrong kind or size yields ErrKeyTypeMismatch and no output": a signature is only ever made with a key on
 // the algorithm's own curve
 //@   at before call SignASN1#0 assert [C03.sig.es.curve] kcSigEC(algorithm) ==> curvebits(arg1.Curve) == kcECBits(algorithm)
@@ -414,6 +569,11 @@ package crypto
 //@   ensures [C03.sig.ed.ok] result1 == nil ==> (fresh(result) && len(result) == 64)
 //@   ensures [C03.sig.ed.noout] result1 != nil ==> result == nil
 //@   at call Sign#0 assert [C03.sig.ed.args] arg1 == message
+// the primitive works with the key material extracted from the given jwk.Key (and from nothing else)
+//@   ghost rawdst iface
+//@   at before call Raw#0 assert [C03.sig.ed.keysrc] arg0 == key
+//@   at before call Raw#0 ghost rawdst = arg1
+//@   at before call Sign#0 assert [C03.sig.ed.keyarg] arg0 == deref(rawdst, "crypto/ed25519.PrivateKey")
 
 //@ func SignPrivateKey
 //@   tags C03 C07 C17
@@ -456,6 +616,11 @@ package crypto
 //@   ensures [C03.ver.rs.valid] result ==> result1 == nil
 //@   at call VerifyPKCS1v15#0 ghost verr = res0
 //@   at call VerifyPKCS1v15#0 assert [C03.ver.rs.args] arg1 == hash && arg2 == digest && arg3 == signature
+// the primitive works with the key material extracted from the given jwk.Key (and from nothing else)
+//@   ghost rawdst iface
+//@   at before call Raw#0 assert [C03.ver.rs.keysrc] arg0 == key
+//@   at before call Raw#0 ghost rawdst = arg1
+//@   at before call VerifyPKCS1v15#0 assert [C03.ver.rs.keyarg] box(arg0, "*crypto/rsa.PublicKey") == rawdst
 //@   ensures [C03.ver.rs.fail] (key.kty == "RSA" && result1 != ErrKeyTypeMismatch && verr == rsa.ErrVerification) ==> (!result && result1 == nil)
 //@   ensures [C03.ver.rs.ok] (result1 != ErrKeyTypeMismatch && verr == nil) ==> (result && result1 == nil)
 
@@ -469,6 +634,11 @@ package crypto
 //@   ensures [C03.ver.ps.valid] result ==> result1 == nil
 //@   at call VerifyPSS#0 ghost verr = res0
 //@   at call VerifyPSS#0 assert [C03.ver.ps.args] arg1 == hash && arg2 == digest && arg3 == signature
+// the primitive works with the key material extracted from the given jwk.Key (and from nothing else)
+//@   ghost rawdst iface
+//@   at before call Raw#0 assert [C03.ver.ps.keysrc] arg0 == key
+//@   at before call Raw#0 ghost rawdst = arg1
+//@   at before call VerifyPSS#0 assert [C03.ver.ps.keyarg] box(arg0, "*crypto/rsa.PublicKey") == rawdst
 //@   ensures [C03.ver.ps.fail] (key.kty == "RSA" && result1 != ErrKeyTypeMismatch && verr == rsa.ErrVerification) ==> (!result && result1 == nil)
 //@   ensures [C03.ver.ps.ok] (result1 != ErrKeyTypeMismatch && verr == nil) ==> (result && result1 == nil)
 
@@ -482,6 +652,11 @@ package crypto
 //@   ensures [C03.ver.es.valid] result ==> result1 == nil
 //@   at call VerifyASN1#0 ghost vok = res0
 //@   at call VerifyASN1#0 assert [C03.ver.es.args] arg1 == digest && arg2 == signature
+// the primitive works with the key material extracted from the given jwk.Key (and from nothing else)
+//@   ghost rawdst iface
+//@   at before call Raw#0 assert [C03.ver.es.keysrc] arg0 == key
+//@   at before call Raw#0 ghost rawdst = arg1
+//@   at before call VerifyASN1#0 assert [C03.ver.es.keyarg] box(arg0, "*crypto/ecdsa.PublicKey") == rawdst
 //@   at before call VerifyASN1#0 assert [C03.ver.es.curve] kcSigEC(algorithm) ==> curvebits(arg0.Curve) == kcECBits(algorithm)
 //@   ensures [C03.ver.es.map] result1 == nil ==> result == vok
 
@@ -495,6 +670,11 @@ package crypto
 //@   ensures [C03.ver.ed.valid] result ==> result1 == nil
 //@   at call Verify#0 ghost vok = res0
 //@   at call Verify#0 assert [C03.ver.ed.args] arg1 == mesage && arg2 == signature
+// the primitive works with the key material extracted from the given jwk.Key (and from nothing else)
+//@   ghost rawdst iface
+//@   at before call Raw#0 assert [C03.ver.ed.keysrc] arg0 == key
+//@   at before call Raw#0 ghost rawdst = arg1
+//@   at before call Verify#0 assert [C03.ver.ed.keyarg] arg0 == deref(rawdst, "crypto/ed25519.PublicKey")
 //@   replay template eddsaverify
 //@   replay val xlen = key.okpx
 //@   ensures [C03.ver.ed.map] result1 == nil ==> result == vok
@@ -557,7 +737,9 @@ package crypto
 //@   ensures [C03.symenc.nonce] (key.kty == "oct" && kcSymmetric(algorithm) && !kcKW(algorithm) && kcKeyLenOK(algorithm, len(key.octets)) && len(nonce) != kcNonceLen(algorithm)) ==> err == ErrInvalidNonce
 //@   ensures [C03.symenc.ptlen] (key.kty == "oct" && kcCBCNoPad(algorithm) && kcKeyLenOK(algorithm, len(key.octets)) && len(nonce) == 16 && len(plaintext) % 16 != 0) ==> err == ErrInvalidPlaintextLength
 //@   ensures [C03.symenc.ok] (key.kty == "oct" && kcSymmetric(algorithm) && !kcKW(algorithm) && kcKeyLenOK(algorithm, len(key.octets)) && len(nonce) == kcNonceLen(algorithm) && (kcCBCNoPad(algorithm) ==> len(plaintext) % 16 == 0)) ==> err == nil
-//@   ensures [C03.symenc.ok.aead] (err == nil && (kcGCM(algorithm) || kcCBCHMAC(algorithm) || kcChaCha(algorithm))) ==> (len(ciphertext) == len(plaintext) && len(tag) == kcTagLen(algorithm, len(key.octets)))
+//@   ensures [C03.symenc.ptlen.kw] (key.kty == "oct" && kcKW(algorithm) && kcKeyLenOK(algorithm, len(key.octets)) && (len(plaintext) < 16 || len(plaintext) % 8 != 0)) ==> err == ErrInvalidPlaintextLength
+//@   ensures [C03.symenc.ok.kwok] (key.kty == "oct" && kcKW(algorithm) && kcKeyLenOK(algorithm, len(key.octets)) && len(plaintext) >= 16 && len(plaintext) % 8 == 0) ==> err == nil
+//@   ensures [C03.symenc.ok.aead] (err == nil && (kcGCM(algorithm) || kcCBCHMAC(algorithm) || kcChaCha(algorithm))) ==> (len(ciphertext) == (kcCBCHMAC(algorithm) ? len(plaintext) + 16 - len(plaintext) % 16 : len(plaintext)) && len(tag) == kcTagLen(algorithm, len(key.octets)))
 //@   ensures [C03.symenc.ok.cbc] (err == nil && (kcCBCPad(algorithm) || kcCBCNoPad(algorithm))) ==> (tag == nil && len(ciphertext) == (kcCBCNoPad(algorithm) ? len(plaintext) : len(plaintext) + 16 - len(plaintext) % 16))
 //@   ensures [C03.symenc.ok.kw] (err == nil && kcKW(algorithm)) ==> (tag == nil && len(ciphertext) == len(plaintext) + 8)
 //@   at call encryptSymmetricAESCBC#0 ghost impl = 1
@@ -594,12 +776,15 @@ package crypto
 //@   ensures [C03.dispatch.symdec.kind] key.kty != "oct" ==> (err == ErrKeyTypeMismatch && plaintext == nil)
 //@   ensures [C03.dispatch.symdec.unsupported] (key.kty == "oct" && !kcSymmetric(algorithm)) ==> (err == ErrUnsupportedAlgorithm && plaintext == nil)
 //@   ensures [C03.dispatch.symdec.noout] err != nil ==> plaintext == nil
-//@   ensures [C03.dispatch.symdec.fresh] !kcCBCPad(algorithm) ==> (plaintext == nil || fresh(plaintext))
+//@   ensures [C03.dispatch.symdec.fresh] plaintext == nil || fresh(plaintext)
 //@   ensures [C03.dispatch.symdec.reach] (key.kty == "oct" && kcSymmetric(algorithm)) ==> (impl == ((kcCBCPad(algorithm) || kcCBCNoPad(algorithm)) ? 1 : (kcGCM(algorithm) ? 2 : (kcCBCHMAC(algorithm) ? 3 : (kcKW(algorithm) ? 4 : 5)))) && plaintext == rpt && err == rerr)
 //@   ensures [C03.symdec.key] (key.kty == "oct" && kcSymmetric(algorithm) && !kcKeyLenOK(algorithm, len(key.octets))) ==> err == ErrKeyTypeMismatch
 //@   ensures [C03.symdec.nonce] (key.kty == "oct" && kcSymmetric(algorithm) && !kcKW(algorithm) && kcKeyLenOK(algorithm, len(key.octets)) && len(nonce) != kcNonceLen(algorithm)) ==> err == ErrInvalidNonce
 //@   ensures [C03.symdec.tag] (key.kty == "oct" && (kcGCM(algorithm) || kcCBCHMAC(algorithm) || kcChaCha(algorithm)) && kcKeyLenOK(algorithm, len(key.octets)) && len(nonce) == kcNonceLen(algorithm) && len(tag) != kcTagLen(algorithm, len(key.octets))) ==> err == ErrInvalidTag
 //@   ensures [C03.symdec.ctlen] (key.kty == "oct" && (kcCBCPad(algorithm) || kcCBCNoPad(algorithm)) && kcKeyLenOK(algorithm, len(key.octets)) && len(nonce) == 16 && len(ciphertext) % 16 != 0) ==> err == ErrInvalidCiphertextLength
+//@   ensures [C03.symdec.ctlen.empty] (key.kty == "oct" && kcCBCPad(algorithm) && kcKeyLenOK(algorithm, len(key.octets)) && len(nonce) == 16 && len(ciphertext) == 0) ==> err == ErrInvalidCiphertextLength
+//@   ensures [C03.symdec.ctlen.kw] (key.kty == "oct" && kcKW(algorithm) && kcKeyLenOK(algorithm, len(key.octets)) && (len(ciphertext) < 24 || len(ciphertext) % 8 != 0)) ==> err == ErrInvalidCiphertextLength
+//@   ensures [C03.symdec.ok.len] err == nil ==> ((kcGCM(algorithm) || kcChaCha(algorithm) || kcCBCNoPad(algorithm)) ? len(plaintext) == len(ciphertext) : (kcKW(algorithm) ? len(plaintext) == len(ciphertext) - 8 : ((kcCBCPad(algorithm) || kcCBCHMAC(algorithm)) ==> (len(ciphertext) >= 16 && len(ciphertext) % 16 == 0 && len(ciphertext) - 16 <= len(plaintext) && len(plaintext) < len(ciphertext)))))
 //@   ensures [C03.symdec.ok.nopad] (key.kty == "oct" && kcCBCNoPad(algorithm) && kcKeyLenOK(algorithm, len(key.octets)) && len(nonce) == 16 && len(ciphertext) % 16 == 0) ==> (err == nil && len(plaintext) == len(ciphertext))
 //@   at call decryptSymmetricAESCBC#0 ghost impl = 1
 //@   at call decryptSymmetricAESCBC#0 ghost rpt = res0
@@ -677,6 +862,8 @@ package crypto
 //@   modifies nothing
 //@   ensures [C03.dispatch.dec.other] (!kcSymmetric(algorithm) && !kcAsymEnc(algorithm)) ==> (plaintext == nil && (err == ErrUnsupportedAlgorithm || err == ErrKeyTypeMismatch))
 //@   ensures [C03.dispatch.dec.noout] err != nil ==> plaintext == nil
+// C17: a plaintext handed back never shares memory with an argument
+//@   ensures [C17.dispatch.dec.fresh] plaintext == nil || fresh(plaintext)
 //@   at call DecryptSymmetric#0 ghost impl = 1
 //@   at call DecryptSymmetric#0 ghost rpt = res0
 //@   at call DecryptSymmetric#0 ghost rerr = res1
@@ -715,7 +902,12 @@ package crypto
 //@   tags C07 C17
 //@   requires key != nil
 //@   modifies nothing
-//@   ensures [C17.serialize.noout] result1 != nil ==> result == nil
+//@   ensures [C07.serialize.noout] result1 != nil ==> result == nil
+// C17: whose memory the result is. No call writes it, but for a symmetric key the bytes handed back ARE the key's own
+// memory (jwx stores and returns its octets slice without copying): a caller that wipes the serialized form wipes the key.
+// Stated so that it is visible; for every other key type the encoding is new memory.
+//@   ensures [C17.serialize.alias] (result1 == nil && key.kty == "oct") ==> result == key.octets
+//@   ensures [C17.serialize.fresh] (result1 == nil && key.kty != "oct") ==> fresh(result)
 
 //@ func parseSymmetricKey
 //@   tags C07 C17
